@@ -400,7 +400,7 @@ Proof. intro H. rewrite <- (effective_time rows None None H). reflexivity. Qed.
 (* RECORD OF THE REPAIRED DEFECT C10-F1: for the unrepaired code the statement is false -- a tie order that
    the platform's sort may legitimately return (it is a sorting order) gives another outcome *)
 Definition f1_rows : list row :=
-  [mkRow 1 false [(None, Some (mk Onset nA))]; mkRow 1 false [(None, Some (mk Offset nA))]].
+  [mkRow 1 [] [(NoDelay, Some (mk Onset nA))]; mkRow 1 [] [(NoDelay, Some (mk Offset nA))]].
 
 Theorem effective_time_unrepaired_refuted :
   exists rows perm2 out,
